@@ -17,6 +17,7 @@
 from types import FrameType
 from typing import List
 
+import deep.logging
 from deep.api.tracepoint.trigger import Location
 
 from deep.processor.context.action_results import ActionCallback
@@ -71,7 +72,11 @@ class CallbackContext(Location, ActionCallback):
         :return: True, to keep this callback until next match.
         """
         for callback in self.__callbacks:
-            callback.process(ctx, event, frame, arg)
+            try:
+                callback.process(ctx, event, frame, arg)
+            except Exception:
+                # a callback that fails must not stop the other callbacks, they are not processed again
+                deep.logging.exception("Cannot process callback %s", callback)
 
     @property
     def id(self) -> str:
